@@ -68,17 +68,31 @@ impl Bounds {
             return Self::singleton(0.0);
         }
         if coefficient > 0.0 {
-            Self::new(self.lower * coefficient, self.upper * coefficient)
+            Self::new(
+                lower_product(self.lower, coefficient),
+                upper_product(self.upper, coefficient),
+            )
         } else {
-            Self::new(self.upper * coefficient, self.lower * coefficient)
+            Self::new(
+                lower_product(self.upper, coefficient),
+                upper_product(self.lower, coefficient),
+            )
         }
     }
 
     pub(crate) fn div_by(self, divisor: f64) -> Self {
         if divisor == 0.0 {
             Self::UNBOUNDED
+        } else if divisor > 0.0 {
+            Self::new(
+                lower_quotient(self.lower, divisor),
+                upper_quotient(self.upper, divisor),
+            )
         } else {
-            self.scale(1.0 / divisor)
+            Self::new(
+                lower_quotient(self.upper, divisor),
+                upper_quotient(self.lower, divisor),
+            )
         }
     }
 
@@ -93,18 +107,81 @@ impl Bounds {
     }
 }
 
+// A bound that was rounded moves one step outwards, so that the interval of a computed result
+// contains the exact one: propagation subtracts nearly equal numbers and divides by small
+// coefficients, which turns a rounding of the last digit into a bound that cuts off feasible
+// values. Results that are exact (integers, halves, ...) are left as they are.
+
+fn sum_is_exact(lhs: f64, rhs: f64, sum: f64) -> bool {
+    let rhs_part = sum - lhs;
+    let error = (lhs - (sum - rhs_part)) + (rhs - rhs_part);
+    !sum.is_finite() || error == 0.0
+}
+
+fn product_is_exact(lhs: f64, rhs: f64, product: f64) -> bool {
+    !product.is_finite() || lhs.mul_add(rhs, -product) == 0.0
+}
+
+fn quotient_is_exact(dividend: f64, divisor: f64, quotient: f64) -> bool {
+    !quotient.is_finite() || quotient.mul_add(divisor, -dividend) == 0.0
+}
+
 fn lower_sum(lhs: f64, rhs: f64) -> f64 {
     let value = lhs + rhs;
     if value.is_nan() {
         f64::NEG_INFINITY
-    } else {
+    } else if sum_is_exact(lhs, rhs, value) {
         value
+    } else {
+        value.next_down()
     }
 }
 
 fn upper_sum(lhs: f64, rhs: f64) -> f64 {
     let value = lhs + rhs;
-    if value.is_nan() { f64::INFINITY } else { value }
+    if value.is_nan() {
+        f64::INFINITY
+    } else if sum_is_exact(lhs, rhs, value) {
+        value
+    } else {
+        value.next_up()
+    }
+}
+
+fn lower_product(lhs: f64, rhs: f64) -> f64 {
+    let value = lhs * rhs;
+    if product_is_exact(lhs, rhs, value) {
+        value
+    } else {
+        value.next_down()
+    }
+}
+
+fn upper_product(lhs: f64, rhs: f64) -> f64 {
+    let value = lhs * rhs;
+    if product_is_exact(lhs, rhs, value) {
+        value
+    } else {
+        value.next_up()
+    }
+}
+
+fn lower_quotient(dividend: f64, divisor: f64) -> f64 {
+    let value = dividend / divisor;
+    if quotient_is_exact(dividend, divisor, value) {
+        value
+    } else {
+        value.next_down()
+    }
+}
+
+fn upper_quotient(dividend: f64, divisor: f64) -> f64 {
+    let value = dividend / divisor;
+    if quotient_is_exact(dividend, divisor, value) {
+        value
+    } else {
+        value.next_up()
+    }
 }
 
 #[derive(Debug, Clone)]
